@@ -128,6 +128,19 @@ register(
     "DESIGN.md §3 C03",
 )
 
+register(
+    "C04",
+    "bounded-exhaustive enumeration of every sparsity pattern of small shapes (incl. all string partitions of a 10-row column) x magnitude classes x real/complex x every write configuration x every read mode and API, plus boundary sizes at each format limit and all short multi-matrix files",
+    "Each matrix of the bounded space is written with every binary/endian/layout/digits/input-type combination and "
+    "read back through every read mode and API; name, shape, form, type and values (bit-exact for binary, "
+    "0.5*10^-digits for ASCII) must be recovered, dense and sparse reads must agree and dir must list the same. "
+    "Boundary sizes (65536-row bigmat switch, 16384-word string limit, 3000-value struct/fromfile cut-over) are "
+    "single cases on both sides of each limit.",
+    "Trusted: numpy/scipy.sparse for building inputs; shapes <= 3x3 and 10x1 for the pattern enumeration; value "
+    "classes chosen to reach 3-digit exponents, denormals and DBL_MAX.",
+    "DESIGN.md §3 C04",
+)
+
 
 def build():
     checks = []
